@@ -27,7 +27,7 @@ def rand_config(r, small=False):
             extra = ["hc"]
     c["extra"] = extra
     c["bs"] = r.choice([4096, 4096, 8192, 16384, 32768, 65536, 131072] + ([] if small else [262144, 1048576]))
-    c["devbs"] = r.choice([None, None, 1024, 4096, 8192, 65536])
+    c["devbs"] = r.choice([None, None, 1024, 4096, 8192, 65536, 3000, 1025, 10000, 100000])   # any value >= 1024 is accepted, not only powers of two
     c["T"] = r.random() < 0.3
     c["e"] = r.random() < 0.4
     c["j"] = r.choice([None, 1, 2, 3, 4, 8, 16])
